@@ -280,7 +280,17 @@ public:
         EdgeWeightMapType spanner_weight_map = get(boost::edge_weight,
                 _spanner);
         ExactAlgorithm exact_mcb_algo;
-        _weight += exact_mcb_algo(_spanner, spanner_weight_map, out);
+        std::list<std::list<Edge>> spanner_cycles;
+        exact_mcb_algo(_spanner, spanner_weight_map, std::back_inserter(spanner_cycles));
+        for (const auto &spanner_cycle : spanner_cycles) {
+            std::list<Edge> cycle;
+            for (const auto &spanner_e : spanner_cycle) {
+                Edge e = _edge_spanner_to_g.at(spanner_e);
+                cycle.push_back(e);
+                _weight += boost::get(_weight_map, e);
+            }
+            *out++ = cycle;
+        }
 
         // compute remaining cycles
         parmcb::detail::NonSpannerEdgesCycleBuilder<Graph, WeightMap,
